@@ -16,6 +16,8 @@ enum Kind { MINHEAP, TSMINHEAP, TSSET };
 
 template <typename Q, typename Model>
 void checkQ(Case& c, Q& q, const Model& m, Kind kind, bool tracked) {
+  if (!c.regOk())
+    return;
   const Q& cq = q;
   c.eq("size", cq.size(), m.size());
   c.eq("empty", cq.empty(), m.empty());
@@ -189,10 +191,12 @@ void runPQ(Case& c, Kind kind, const char* name) {
   unsigned nops     = c.pickOps();
   std::string cfg   = std::string(tracked ? "tracked" : "int") + (greater ? "|greater" : "|less") +
                     (rangeInit ? "|range" : "") + (roe ? "|roe" : "") + "|k" + std::to_string(keyRange);
-  c.begin(name, cfg,
+  if (!c.begin(name, cfg,
           J().kv("elem", tracked ? "tracked" : "int").kv("cmp", greater ? "greater" : "less")
               .kv("range_constructed", rangeInit).kv("remove_on_empty_allowed", roe).kv("key_range", keyRange)
-              .kv("nops", nops));
+              .kv("nops", nops),
+               roe ? "remove-on-empty" : ""))
+    return;
   if (tracked) {
     if (greater)
       pqKind<Tracked, std::greater<Tracked>, std::greater<int>>(c, kind, rangeInit, roe, keyRange, nops);
